@@ -30,6 +30,7 @@ POPS = {
     'indep':    dict(expr=False, dependent=False),                  # nested blocks need not depend on their parent
     'subdep':   dict(expr=False, subdep=True),                      # element selector whose subscript mentions an outer name
     'print':    dict(expr=False, print_names=True),                 # PRINT mentions associate names
+    'nointr':   dict(expr=False, intrinsics=False),                 # like var, no intrinsic function references at all
     'volatile': dict(expr=True, volatile=True, dependent=False),    # selectors mention entities the blocks define
 }
 FEATURES = ('assoc', 'twod', 'section', 'call', 'select', 'exitcycle')
@@ -86,6 +87,7 @@ def run(ctx):
         c = ctx.replay['case']
         cases = [(c['prog'], c['inputs'])]
     else:
+        ctx.mc('MC_AssocResolve', 'MC_AssocResolve', workers=4, timeout=900, coverage=False)    # design level, see the module header
         cases = gen_cases(ctx, dev or (112 if ctx.quick else 1680))
     results, fails, legal = F.behaviour_check(ctx, 'assoc', cases, transform)
     recheck = None if ctx.quick and not ctx.replay else F.make_recheck(ctx, transform)
